@@ -1311,6 +1311,20 @@ class Exec:
             self.frames[-1].env[tg.id] = v
         elif isinstance(tg, (ast.Tuple, ast.List)):
             vals = self.iterate(v) if not isinstance(v, (tuple, list)) else list(v)
+            stars = [k_ for k_, t_ in enumerate(tg.elts) if isinstance(t_, ast.Starred)]
+            if len(stars) > 1:
+                raise OutOfSubset("two starred targets")
+            if stars:
+                k_ = stars[0]
+                after = len(tg.elts) - k_ - 1
+                if len(vals) < len(tg.elts) - 1:
+                    raise Raised("ValueError", "not enough values to unpack")
+                for t, x in zip(tg.elts[:k_], vals[:k_]):
+                    self.assign(t, x)
+                self.assign(tg.elts[k_].value, stamp(list(vals[k_:len(vals) - after])))
+                for t, x in zip(tg.elts[k_ + 1:], vals[len(vals) - after:] if after else []):
+                    self.assign(t, x)
+                return
             if len(vals) != len(tg.elts):
                 raise Raised("ValueError", "unpack")
             for t, x in zip(tg.elts, vals):
@@ -1344,7 +1358,13 @@ class Exec:
         if isinstance(v, (list, tuple, dict, set, str)):
             return len(v) > 0
         if isinstance(v, ArrV):
-            raise Raised("ValueError", "truth value of an array is ambiguous")
+            n_ = v.static_len() if v.ndim == 1 and v.mask is None else None
+            if n_ is not None and n_ > 1:
+                raise Raised("ValueError", "truth value of an array is ambiguous")
+            if n_ == 1:
+                return self.truth(v.get(tm.const(0)))
+            # length unknown: numpy raises only for more than one element
+            raise OutOfSubset("truth value of an array of symbolic length")
         return True
 
     def lookup(self, name):
@@ -1358,6 +1378,8 @@ class Exec:
             return self.eng.mod_global(fr.module, name)
         except KeyError:
             pass
+        if name == "__name__":
+            return fr.module.name
         b = self.eng.lib.builtin(name)
         if b is not None:
             return b
@@ -1417,9 +1439,22 @@ class Exec:
         d = {}
         for k, v in zip(e.keys, e.values):
             if k is None:
-                raise OutOfSubset("dict unpacking")
+                inner = self.eval(v)
+                if isinstance(inner, TableV) and inner.kind == "dict":
+                    inner = dict(inner.cols)
+                if not isinstance(inner, dict):
+                    raise OutOfSubset("** of a non-dict in a dict display")
+                d.update(inner)
+                continue
             d[self.eval(k)] = self.eval(v)
         return stamp(d)
+
+    def ev_NamedExpr(self, e):
+        v = self.eval(e.value)
+        if not isinstance(e.target, ast.Name):
+            raise OutOfSubset("walrus target")
+        self.frames[-1].env[e.target.id] = v
+        return v
 
     def ev_Lambda(self, e):
         fr = self.frames[-1]
@@ -1428,9 +1463,29 @@ class Exec:
     def ev_IfExp(self, e):
         c = self.eval(e.test)
         if isinstance(c, T) and c.sort == tm.B and self.known(c) is None:
-            a, b = self.eval(e.body), self.eval(e.orelse)
-            if isinstance(a, T) and isinstance(b, T):
-                return tm.ite(c, a, b)
+            # each arm is evaluated UNDER its condition (its well-definedness needs and facts are those of that arm only);
+            # an arm that branches, raises or is not a scalar makes the whole expression an ordinary path split on c
+            n_pc, n_dec, pos0 = len(self.pc), len(self.decisions), self.pos
+            arms = []
+            ok = True
+            for cond, node in ((c, e.body), (tm.lnot(c), e.orelse)):
+                self.pc.append(cond)
+                try:
+                    v = self.eval(node)
+                except (Raised, _Backtrack):
+                    ok = False
+                    v = None
+                if len(self.decisions) != n_dec or len(self.pc) != n_pc + 1:
+                    ok = False
+                del self.pc[n_pc:]
+                del self.decisions[n_dec:]
+                self.pos = pos0
+                if not ok or not isinstance(v, T):
+                    ok = False
+                    break
+                arms.append(v)
+            if ok:
+                return tm.ite(c, arms[0], arms[1])
         return self.eval(e.body) if self.truth(c) else self.eval(e.orelse)
 
     def ev_Attribute(self, e):
@@ -1455,6 +1510,8 @@ class Exec:
                 return DictProxy(o)
             c = o.cls.lookup(name)
             if c is None:
+                if any(getattr(k_, "unmodelled_bases", False) for k_ in o.cls.mro()):
+                    raise OutOfSubset(f"attribute {name} of an object whose base classes are not modelled")
                 raise Raised("AttributeError", name)
             if isinstance(c, FuncV):
                 decs = [ast.unparse(d_.func if isinstance(d_, ast.Call) else d_) for d_ in getattr(c.node, "decorator_list", [])]
